@@ -102,7 +102,17 @@ fn mk_entries(line: &str, out: &mut Vec<String>) {
     for &pos in cands.iter().rev().take(3) {
         let p = &line[..pos];
         for k in ["escaped", "glob", "regex"] {
-            let e = format!("{}:{}={}", k, hex(p.as_bytes()), real_make(k, p).map(|b| hex(&b)).unwrap_or("!".into()));
+            // the model has the ` (no-eol)` strip of EscapedRule::make itself and asks for the rest
+            // (apply_escaped_filter_bytes) on the stripped text; appending the suffix once makes the
+            // real constructor strip exactly that and apply the filter to the text as it is
+            let (key, arg) = if k == "escaped" {
+                let key = p.strip_suffix(" (no-eol)").unwrap_or(p).to_string();
+                let arg = format!("{key} (no-eol)");
+                (key, arg)
+            } else {
+                (p.to_string(), p.to_string())
+            };
+            let e = format!("{}:{}={}", k, hex(key.as_bytes()), real_make(k, &arg).map(|b| hex(&b)).unwrap_or("!".into()));
             if !out.contains(&e) {
                 out.push(e);
             }
@@ -199,12 +209,11 @@ fn oracle_roundtrip(line: &str, esc: &Escaper, x: &Expectation, s: &str, back: &
     let (k, e, o, m) = x.unmake();
     let classify = || -> &'static str {
         let printable = esc.escaped_printable(&e);
-        // two open findings; everything else is a regression and reported under the generic class.
-        // (1) regex / no-eol have no escaped syntax: an expression with unprintable characters is
-        // displayed through the escaper and read back literally.
-        // (2) EscapedRule::make drops a trailing ` (no-eol)` (cram compatibility), so bytes ending in
-        // it do not survive being written as an `escaped` expectation (equal with unprintable
-        // content is written as escaped).
+        // one open finding: regex / no-eol have no escaped syntax, an expression with unprintable
+        // characters is displayed through the escaper and read back literally.
+        // Regression class (fixed by c1bf05c, not a known finding): bytes ending in ` (no-eol)`
+        // written as an `escaped` expectation lost that suffix (EscapedRule::make strips it).
+        // Everything else is reported under the generic class.
         if (k == "regex" || k == "no-eol") && esc.has_unprintable(&e) {
             "C08:escaped-pattern-roundtrip"
         } else if ((k == "equal" && esc.has_unprintable(&e)) || k == "escaped") && printable.ends_with(" (no-eol)") {
